@@ -43,7 +43,7 @@ let () =
         let lines = read_lines file in
         (* implementation's recorded dependency order per (build index, key) *)
         let impl : (int * int, int list) Hashtbl.t = Hashtbl.create 64 in
-        let impl_db : (int * int, int list) Hashtbl.t = Hashtbl.create 64 in
+        let impl_db : (int * int, (int * int) list) Hashtbl.t = Hashtbl.create 64 in
         if trace <> "-" then begin
           let b = ref 0 in
           List.iter (fun l -> match String.split_on_char ' ' l with
@@ -52,27 +52,36 @@ let () =
               | "dbrow" :: k :: _ :: _ :: _ :: _ :: ds ->
                 (* fallback when the in-memory dump is unavailable (keys that print alike): the order stored in the database *)
                 Hashtbl.replace impl_db (!b, int_of_string k)
-                  (List.filter_map (fun x -> match String.split_on_char ':' x with a :: _ when a <> "" && a <> "?" -> Some (int_of_string a) | _ -> None) ds)
+                  (List.filter_map (fun x -> match String.split_on_char ':' x with
+                       | a :: f :: _ when a <> "" && a <> "?" -> Some (int_of_string a, int_of_string f)
+                       | _ -> None) ds)
               | _ -> ()) (read_lines trace)
         end;
         let out = Buffer.create 4096 in
         let say s = Buffer.add_string out s; Buffer.add_char out '\n' in
         let cur_build = ref 0 in
+        let flag_of (d : dep) = (if d.d_single then 2 else 0) + (if d.d_order then 1 else 0) in
         let order _epoch k (requested : dep list) : dep list =
-          match (match Hashtbl.find_opt impl (!cur_build, int_of_n k) with Some x -> Some x | None -> Hashtbl.find_opt impl_db (!cur_build, int_of_n k)) with
+          (* the order (and, when the database rows are available, the flags) the implementation recorded; -1 = flag unknown *)
+          let want : (int * int) list option =
+            match Hashtbl.find_opt impl_db (!cur_build, int_of_n k) with
+            | Some l -> Some l
+            | None -> (match Hashtbl.find_opt impl (!cur_build, int_of_n k) with Some l -> Some (List.map (fun x -> (x, -1)) l) | None -> None) in
+          match want with
           | None -> requested
           | Some keys ->
             let n = List.length requested in
             let keys = List.filteri (fun i _ -> i < n) keys in
             let pool = ref requested and res = ref [] and ok = ref (List.length keys = n) in
-            List.iter (fun x ->
+            List.iter (fun (x, fl) ->
                 let rec pick acc = function
                   | [] -> ok := false; List.rev acc
-                  | d :: tl -> if int_of_n d.d_key = x then (res := d :: !res; List.rev_append acc tl) else pick (d :: acc) tl in
+                  | d :: tl -> if int_of_n d.d_key = x && (fl < 0 || flag_of d = fl) then (res := d :: !res; List.rev_append acc tl) else pick (d :: acc) tl in
                 pool := pick [] !pool) keys;
             if !ok && !pool = [] then List.rev !res
             else (say (Printf.sprintf "ORDER-MISMATCH %d model=[%s] impl=[%s]" (int_of_n k)
-                         (String.concat "," (List.map (fun d -> kstr d.d_key) requested)) (String.concat "," (List.map string_of_int keys)));
+                         (String.concat "," (List.map (fun d -> kstr d.d_key ^ ":" ^ string_of_int (flag_of d)) requested))
+                         (String.concat "," (List.map (fun (a, f) -> string_of_int a ^ ":" ^ string_of_int f) keys)));
                   requested) in
         let nkeys = ref 4 in
         let h = ref init_h in
